@@ -1543,7 +1543,15 @@ class Interp:
                 return len(x)
             if isinstance(x, GenObj):
                 raise RaiseSig("TypeError", "len of generator")
-            raise RaiseSig("TypeError", "object of type %s has no len()" % type(x).__name__)
+            if isinstance(x, Obj):
+                m = self.find_method(x.cls, "__len__")
+                if m is not None:
+                    return self.call_function(FuncRef(m), [x], {})
+                raise RaiseSig("TypeError", "object of type %s has no len()" % x.cls.name)
+            if x is None or isinstance(x, Cx) or V.is_num(x):
+                raise RaiseSig("TypeError", "object of type %s has no len()" % type(x).__name__)
+            # a value kind of this interpreter for which len() is simply not modelled: not a TypeError of the program
+            raise Unsupported("len() of %s" % type(x).__name__)
         if name == "range":
             a = [self.as_index(x) for x in args]
             if len(a) == 1:
@@ -1719,7 +1727,9 @@ class Interp:
             if not V.s_is_int(x):
                 raise RaiseSig("TypeError", "'float' object cannot be interpreted as an integer")
             return x
-        raise RaiseSig("TypeError", "object cannot be interpreted as an integer")
+        if x is None or isinstance(x, (Cx, str, list, tuple, dict)):
+            raise RaiseSig("TypeError", "object cannot be interpreted as an integer")
+        raise Unsupported("%s used as an integer" % type(x).__name__)
 
     def isinstance1(self, x, t):
         if isinstance(t, TypeMarker):
